@@ -3,6 +3,9 @@
 # round-robin spec and a permutation; split chunks concatenate to the input; rotation mod 360).
 # Tie: QUtil::parse_numrange in-process vs the extracted model AND the extracted specification;
 # qpdf CLI --pages/--collate/--split-pages/--rotate on marker documents vs the extracted specs.
+# Extension (c12_attr.py, drv_pattr.cc): page trees built in-process, push-down / flattening / rotatePage histories vs the
+# extracted model Struct/PageAttr.v and the extracted ISO 7.7.3.4 specification Struct/PageAttrSpec.v; the page-list model
+# Struct/PageSel.v vs every --pages job.
 import itertools, json, os, re
 import common, pdfgen
 from common import hexs
@@ -11,6 +14,7 @@ ASSUMPTIONS = [
     "std::regex matches (x)?(z|r?\\d+)(?:-(z|r?\\d+))? as ECMAScript defines it (the model implements that one expression by hand)",
     "AcroForm field re-parenting and resource pruning are not modelled (DESIGN C12: oracle-only / outside)",
     "output page lists are read back through qpdf --json-output (qpdf's own reader); strictness of the written file is C02's subject",
+    "page-tree model (Struct/PageAttr.v): tree objects have distinct ids, correct /Type and /Parent, indirect dictionary kids; every indirect reference is below the document's next object id; Pages::cache's other repairs are C13's model; no signed overflow in rotatePage (|old + angle| < 2^31)",
 ]
 
 BODY_ALPHA = "1230-,xzr"
@@ -413,7 +417,11 @@ def run(chk):
     chk.cov["rule"] = ("numrange: every body over the alphabet '%s' up to the length bound x max in {0,3,12} x parity suffix, fixed malformed list, "
                        "grammar-derived random ranges with mutations; non-trivial = accepted range with a span, list or parity suffix, distinct by (string,max). "
                        "cli: random --pages/--collate/--split-pages/--rotate jobs over 6 marker documents (nested page trees, inherited Rotate/MediaBox); "
-                       "non-trivial = job selecting more than one page, distinct by argv") % BODY_ALPHA
+                       "non-trivial = job selecting more than one page, distinct by argv. "
+                       "pattr: random page trees built in-process (depth 1-5, chains, empty nodes, each inheritable key present/absent per level, direct/indirect/shared/"
+                       "dangling/ill-typed values, explicit /Rotate 0 under an inherited rotation, /Rotate beyond 32 bits or not a multiple of 90, wrong /Count, unknown keys) "
+                       "x histories of 1-6 operations (pushInheritedAttributesToPage, getAllPages, findPage, removePage, insert, rotatePage) + fixed cases per case split; "
+                       "non-trivial = the object graph changed, distinct by (tree, history)") % BODY_ALPHA
     part_numrange(chk, drv, runner)
     part_cli(chk, runner)
     import c12_forms
